@@ -36,6 +36,16 @@ pub struct Profile {
     pub const_cap: f64,
 }
 
+pub static SINGLE_METRIC: [[Metric; 1]; 7] = [
+    [Metric::Euclidean],
+    [Metric::Manhattan],
+    [Metric::Cosine],
+    [Metric::DotProduct],
+    [Metric::BqEuclidean],
+    [Metric::BqManhattan],
+    [Metric::BqCosine],
+];
+
 pub const F32_METRICS: [Metric; 4] = [Metric::Euclidean, Metric::Manhattan, Metric::Cosine, Metric::DotProduct];
 
 pub fn profile(name: &str) -> Profile {
